@@ -3,4 +3,4 @@ From Coq Require Extraction ExtrOcamlBasic.
 From SF Require Import Bits Fp.
 Extraction Language OCaml.
 Extraction "sfmodel.ml" b32_decode b32_encode b64_decode b64_encode fmul32 fmul64 psf_lrint round32 round64
-  of_int fge fle.
+  of_int fge fle fdiv32 fdiv64.
